@@ -167,6 +167,9 @@ def run(tier):
                         pass
     for zn, zm in zoo.accepted_models():
         zjobs.append(("zoo", {"entry": "xml_buffer", "text": xmlgen.render_xml(zm)}))
+    import lsczoo
+    for li, lx_, le in lsczoo.docs():         # scenario documents: chart instances (also chained ones) are instances of the document like any other
+        zjobs.append(("zoo", {"entry": "xml_buffer", "text": lx_}))
     zkind = {}
     for k, (kind, j) in enumerate(zjobs):
         j["id"] = "z%d" % k
